@@ -20,7 +20,7 @@ Requirements for the change:
  - It must compile: check with `cd {wt} && CARGO_NET_OFFLINE=true cargo build --offline -p <crate you touched>` (the sandbox has no network; always pass --offline). Build output goes to {wt}/target; that is fine.
  - The existing tests that exercise the code you touched must still pass. Run the relevant ones, e.g. `cargo test --offline -p grin_wallet_libwallet` and the relevant controller tests such as `cargo test --offline -p grin_wallet_controller --test transaction` (controller tests take a minute or two each; run the ones that cover the area you changed, not necessarily all).
 
-Also write a demonstration: a new Rust integration test file (for example {wt}/controller/tests/seeded_demo.rs, modelled on the existing tests in {wt}/controller/tests which show how to set up a local chain proxy and wallets; or a unit-style test under libwallet if that is enough) that FAILS with your change and PASSES without it. Verify both directions yourself (git stash / git stash pop, or apply/revert the patch).
+Also write a demonstration: a new Rust integration test file (for example {wt}/controller/tests/seeded_demo.rs, modelled on the existing tests in {wt}/controller/tests which show how to set up a local chain proxy and wallets; or a unit-style test under libwallet if that is enough) that FAILS with your change and PASSES without it. Verify both directions yourself by saving your change with `git diff > {out}/patch.diff` and toggling it with `git apply -R {out}/patch.diff` / `git apply {out}/patch.diff`. NEVER use `git stash`: all worktrees of this repository share one stash and other sessions are working in sibling worktrees.
 
 Deliver, in the directory {out} (create it):
  - patch.diff : `git -C {wt} diff` of the source change ONLY (not the demo test)
